@@ -15,5 +15,6 @@ def run(ctx):
         rule='%d seeded histories: a pool of 4 random structures (<=4 states) and 11 formulas (CTL, LTL, CTL*; objects and text; with and without '
              'fairness sets) - every query evaluated once, then 40 randomly interleaved repetitions must return equal results; deep snapshot '
              '(states, transitions, every label set and its identity, S0), formula tree, F argument and module/class level state compared '
-             'after every call; distinct by (seed, query)' % n)
+             'after every call; finally the caller toggles a label through labels(s) and adds an edge on every structure, and every query without '
+             'fairness must answer like on a freshly built equal structure; distinct by (seed, query)' % n)
     return deductive.level_for(ctx, 'C07'), CMD
